@@ -73,9 +73,32 @@ def gen_crowded(rng):
     return dict(frames=frames, sr=sr, memory=mem, max_size=12, strategy=rng.choice(['recursive', 'nonrecursive']), ndim=2)
 
 
+def gen_hub(rng):
+    """one SOURCE with 11-13 destinations in range (the neighbour cap of 10 is per destination: a source may have any
+    number of candidates).  Ten to twelve destinations on a ring each have a private source 1 px further out that takes
+    them; one more destination, a little farther from the hub than the ring, is left for the hub: the optimum links
+    hub -> that destination (rank 11+ among the hub's candidates), anything else costs more"""
+    k = rng.choice([10, 11, 12])
+    R = Fraction(39, 4)                      # ring radius 9.75, search_range 10
+    rot = rng.random() * 2 * math.pi
+    q = lambda v: round(v * 4) / 4.0
+    ring = [(q(float(R) * math.cos(rot + 2 * math.pi * i / k)), q(float(R) * math.sin(rot + 2 * math.pi * i / k))) for i in range(k)]
+    priv = [(q(10.75 * math.cos(rot + 2 * math.pi * i / k)), q(10.75 * math.sin(rot + 2 * math.pi * i / k))) for i in range(k)]
+    a = rot + math.pi / k
+    extra = (q(9.9 * math.cos(a)), q(9.9 * math.sin(a)))
+    mem = rng.choice([0, 0, 1])
+    f0 = [(0.0, 0.0)] + priv
+    f1 = ring + [extra]
+    rng.shuffle(f0); rng.shuffle(f1)
+    return dict(frames=[np.array(f0, dtype=float), np.array(f1, dtype=float)], sr=Fraction(10), memory=mem, max_size=15,
+                strategy=rng.choice(['recursive', 'nonrecursive']), ndim=2)
+
+
 def gen_case(rng, tier):
     if rng.random() < 0.12:
         return gen_crowded(rng)
+    if rng.random() < 0.05:
+        return gen_hub(rng)
     q = rng.random() < 0.5
     big = tier == 'thorough' and rng.random() < 0.3
     fr = linkgen.gen_movie(rng, quarter=q, nframes=rng.randint(2, 10 if big else 7))
